@@ -32,8 +32,8 @@ def big_phase(ctx, whats, tag="big"):
         k, p = kp
         nm = f"TV_{tag}_{k}"
         return tlc(ctx, f"tv-{tag}-{k}", nm, mc_module(nm, "TraceBig"), "SPECIFICATION TSpec\nINVARIANT Done\nCHECK_DEADLOCK FALSE\n",
-                   env={"TRACE": str(p)}, workers=1, heap="6g", timeout=1500, extra=["-maxSetSize", "20000000"])
-    with ThreadPoolExecutor(max_workers=NCPU) as ex:
+                   env={"TRACE": str(p)}, workers=1, heap="4g", timeout=1500, extra=["-maxSetSize", "20000000"])
+    with ThreadPoolExecutor(max_workers=min(8, NCPU)) as ex:        # at most 8 x 4 GB of validators at a time
         results = list(ex.map(one, list(enumerate(parts))))
     bad = []
     for (k, p), r in zip(enumerate(parts), results):
